@@ -369,9 +369,9 @@ func addSchedLayer(p *Prop, prefix string, scens func() []Scenario) {
 }
 
 // schedPair builds the 4-record (D2M1) and 70-record (D1M1) scenarios of one call shape.
-func schedPair(name string, mk func(n int) Call) []Scenario {
+func schedPair(name string, mk func(n int) Call, extraSizes ...int) []Scenario {
 	var out []Scenario
-	for _, n := range []int{4, 70} {
+	for _, n := range append([]int{4, 70}, extraSizes...) {
 		c := mk(n)
 		if c.Threads == 0 {
 			c.Threads = 2
